@@ -64,7 +64,7 @@ RT_Counts    == 0..12
 S_Keys       == {"k1", "k2", "k3", "k4"}
 S_Bad        == {"b0", "b32", "b34"}
 S_Probes     == {"s1", "s2", "s3"}
-S_Infos      == 1..9
+S_Infos      == 1..9 \cup {17, 18, 20, 33}   \* ids 16 apart differ in the addresses only, see harness/netmap node2
 S_StateArgs  == {-1, 0, 1, 2, 3, 4}
 S_SignerSets == {{}, {"ALPHA"}, {"k1"}, {"k2"}, {"k1", "ALPHA"}, {"k2", "ALPHA"}, {"k3", "ALPHA"}, {"k4", "ALPHA"},
                  {"CMT"}, {"CMT", "k1"}, {"M1", "k2"}, {"X", "ALPHA"}, {"X"}}
@@ -124,12 +124,14 @@ S_SignerBias == <<{"ALPHA"}, {"ALPHA"}, {"ALPHA"}, {"ALPHA", "k1"}, {"ALPHA", "k
 PickS == IF RandomElement(1..4) = 1 THEN Pick(SignerSets) ELSE S_SignerBias[RandomElement(1..Len(S_SignerBias))]
 PickNodeS(k) == IF RandomElement(1..4) = 1 THEN Pick(SignerSets) ELSE {"ALPHA", k}
 
+\* info id of an add: every third time the id the list already holds for the key (a re-announcement)
+PickInfo(L, k) == IF L[k].ex /\ RandomElement(1..3) = 1 THEN L[k].i ELSE Pick(Infos)
 SimStep(h) ==
   LET r == RandomElement(1..26)
       k == Pick(Keys)
-  IN  CASE r <= 3  -> AddPeer(PickNodeS(k), k, Pick(Infos), h)
-        [] r <= 5  -> AddPeerIR(PickS, k, Pick(Infos), h)
-        [] r <= 8  -> AddNode(PickNodeS(k), k, Pick(Infos), IF RandomElement(1..8) = 1 THEN Pick(StateArgs) ELSE Online, h)
+  IN  CASE r <= 3  -> AddPeer(PickNodeS(k), k, PickInfo(legacy, k), h)
+        [] r <= 5  -> AddPeerIR(PickS, k, PickInfo(legacy, k), h)
+        [] r <= 8  -> AddNode(PickNodeS(k), k, PickInfo(structured, k), IF RandomElement(1..8) = 1 THEN Pick(StateArgs) ELSE Online, h)
         [] r <= 11 -> UpdateState(PickNodeS(k), Pick(StateArgs), k, h)
         [] r <= 13 -> UpdateStateIR(PickS, Pick(StateArgs), k, h)
         [] r = 14  -> DeleteNode(PickS, k, h)
